@@ -451,6 +451,12 @@ def run(ctx):
     tools = Tools(ctx, b)
     model = Model(exe)
     quick = ctx.tier == "quick"
+    # does this tree print a split literal as ( 'a' + 'b' ) in operand position (fixes/C07-7)?  If not, splittable literals are
+    # generated only where the unparenthesised sum is harmless (proposed finding in notes/C07.md)
+    gen_text = open(os.path.join(L.GEN_DIR, "ExpPrec.lean")).read()
+    split_paren = bool(re.search(r"def splitLiteralParen : Bool := true", gen_text))
+    X.SPLIT_SAFE_RENDER[0] = not split_paren
+    ctx.cov["split_literal_parenthesised"] = split_paren
     try:
         # 1. corpus: minimal schemas for every defect found so far, at every width
         cdir = os.path.join(VERIF, "corpus", "C07")
@@ -469,7 +475,7 @@ def run(ctx):
                 break
             if time.time() - t0 > (60 if quick else 900):
                 break
-            g = X.Gen(ctx.rng, feats)
+            g = X.Gen(ctx.rng, feats, split_safe=not split_paren)
             sc = g.schema()
             src = X.schema_src(sc, ctx.rng)
             ctx.hist("inputs", "generated")
